@@ -271,7 +271,9 @@ def Batch.sub (b : Batch) (from_ to : Nat) : R Batch := do
   let sl {α} (l : List α) := (l.take to).drop from_
   let fc := if b.filterCount > 0 then countFilter (sl b.st) else 0
   let split := if b.split.length ≠ 0 then
-      (sl b.pos).foldl (fun acc p => match lookup b.split (keyOf p) with
+      -- `pos.String()` of a nil position is "<nil>", a key SplitRecord never writes (it refuses nil
+      -- positions), so a nil position finds nothing — unlike an EMPTY position, whose key "" can be present
+      (sl b.pos).foldl (fun acc p => if p == none then acc else match lookup b.split (keyOf p) with
         | some r => if (lookup acc (keyOf p)).isSome then acc else acc ++ [(keyOf p, r)]
         | none => acc) []
     else []
@@ -619,7 +621,11 @@ def ackerCall : Nat → Acker → Batch → Bool → Nat → M Unit
     for i in List.range ob.pos.length do
       let p := (ob.pos[i]?).join
       match maIndexOf m p with
-      | none => throw (.err plainErr)   -- "(bug) position is not part of the original fan-out batch"
+      | none =>
+        -- "(bug) position is not part of the original fan-out batch": the votes recorded so far stay
+        -- (Go mutates the tally in place), nothing is released by this call
+        modify fun s => { s with mas := s.mas.set! id m }
+        throw (.err plainErr)
       | some ix =>
         if m.terminal[ix]?.getD false then continue
         let r ← liftR (idx ob.recs i "ob.records[i]")
